@@ -322,6 +322,17 @@ if "C19" in CLAIMED:
     CLAIMED["C19"]["text"] += (" Enumerated kill/reap races: another thread ends and reaps the child at the instant of the k-th signal, both placements of the threads, every "
                                "schedule within the preemption bound.")
 
+if "C15" in CLAIMED and _has("C15poll") and _has("C15epoll"):
+    CLAIMED["C15"]["text"] += (" Extensions: the back ends' own bookkeeping is modelled statement by statement. Ivy/Props/C15poll.lean (26 theorems; iv_fd_poll.c: dense "
+                               "pollfd array, swap-remove, slot numbers, revents->bands): for every op sequence the polled array is a permutation of the abstract poll set "
+                               "{(fd, mask(wanted))}, no object in two slots, frames, no mis-attribution of revents. Ivy/Props/C15epoll.lean (25 theorems; iv_fd_epoll.c: "
+                               "deferred notify list, ADD/MOD/DEL choice, unregister flush, batch dispatch): the library's belief equals the kernel's interest list, "
+                               "every epoll_ctl it issues succeeds except the probing ADD of register_try, after flush_pending the kernel watches exactly that same poll "
+                               "set (both back ends present the same set to the kernel), minimality, negative theorems for mutants. Assumed: epoll_ctl's "
+                               "EEXIST/ENOENT/EBADF semantics. Tie: differential runs of the real code (harness/fdpoll_h.c, fdepoll_h.c; random + enumerated op files) "
+                               "against `ivyreplay fdpoll|fdepoll`, with an independent reference for replays. Also enumerated: one descriptor number offered to two "
+                               "iv_fd objects (accepted by poll/ppoll, refused by the epoll methods; the first keeps being served).")
+
 NOT_YET = "check not built yet in this round; planned per DESIGN.md §7 (Lean model + theorems + correspondence)"
 
 checks = []
